@@ -50,14 +50,21 @@ def lonlat_to_cell(lon_lat: LonLat, resolution: int) -> int:
     samples: List[LonLat] = [lon_lat]
     N = 25
     scale = 50 / (2 ** hilbert_resolution)
-    
+
+    # Offsets are degrees of arc. A degree of longitude shrinks with cos(latitude), so
+    # stretch the longitude offset to keep the spiral round away from the equator
+    lon_stretch = 1 / max(math.cos(math.radians(lon_lat[1])), 1e-12)
+
     for i in range(N):
         R = (i / N) * scale
-        coordinate = (
-            math.cos(i) * R + lon_lat[0],
-            math.sin(i) * R + lon_lat[1]
-        )
-        samples.append(coordinate)
+        longitude = math.cos(i) * min(R * lon_stretch, 180.0) + lon_lat[0]
+        latitude = math.sin(i) * R + lon_lat[1]
+        # Samples that pass over a pole continue down the opposite meridian
+        if latitude > 90:
+            longitude, latitude = longitude + 180, 180 - latitude
+        elif latitude < -90:
+            longitude, latitude = longitude + 180, -180 - latitude
+        samples.append((longitude, latitude))
 
     # Deduplicate estimates
     estimate_set = set()
